@@ -38,6 +38,7 @@ type step struct {
 	info     *types.BridgeInfo
 	spend    *types.MsgSpendFeePool
 	exec     *types.MsgExecuteMessages
+	resp     any // the handler's response (C18 compares two executions)
 }
 
 func (s step) ok() bool { return s.err == nil && !s.pan }
@@ -65,36 +66,37 @@ func newStep(ms *MsgServer) *step {
 		}
 		req := &types.MsgExecuteMessages{Sender: verifSymStr("req.sender"), Messages: anys}
 		st.signer, st.exec = req.Sender, req
-		st.fn = func(c sdk.Context) error { _, e := ms.ExecuteMessages(c, req); return e }
+		st.fn = func(c sdk.Context) error { r, e := ms.ExecuteMessages(c, req); st.resp = r; return e }
 	case mAddValidator:
 		req := &types.MsgAddValidator{Moniker: verifSymStr("req.moniker"), Authority: verifSymStr("req.authority"), ValidatorAddress: verifSymStr("req.valAddr"), Pubkey: verifSym[*codectypes.Any]("req.pubkey")}
 		st.signer, st.addVal = req.Authority, req
-		st.fn = func(c sdk.Context) error { _, e := ms.AddValidator(c, req); return e }
+		st.fn = func(c sdk.Context) error { r, e := ms.AddValidator(c, req); st.resp = r; return e }
 	case mRemoveValidator:
 		req := &types.MsgRemoveValidator{Authority: verifSymStr("req.authority"), ValidatorAddress: verifSymStr("req.valAddr")}
 		st.signer, st.rmVal = req.Authority, req
-		st.fn = func(c sdk.Context) error { _, e := ms.RemoveValidator(c, req); return e }
+		st.fn = func(c sdk.Context) error { r, e := ms.RemoveValidator(c, req); st.resp = r; return e }
 	case mUpdateParams:
 		p := verifSym[types.Params]("req.params")
 		req := &types.MsgUpdateParams{Authority: verifSymStr("req.authority"), Params: &p}
 		st.signer, st.params = req.Authority, &p
-		st.fn = func(c sdk.Context) error { _, e := ms.UpdateParams(c, req); return e }
+		st.fn = func(c sdk.Context) error { r, e := ms.UpdateParams(c, req); st.resp = r; return e }
 	case mSpendFeePool:
 		req := &types.MsgSpendFeePool{Authority: verifSymStr("req.authority"), Recipient: verifSymStr("req.recipient"),
 			Amount: sdk.Coins{sdk.Coin{Denom: verifSymStr("req.denom"), Amount: verifSymInt("req.amount")}}}
 		st.signer, st.spend = req.Authority, req
-		st.fn = func(c sdk.Context) error { _, e := ms.SpendFeePool(c, req); return e }
+		st.fn = func(c sdk.Context) error { r, e := ms.SpendFeePool(c, req); st.resp = r; return e }
 	case mSetBridgeInfo:
 		info := symBridgeInfo("req.info")
 		req := &types.MsgSetBridgeInfo{Sender: verifSymStr("req.sender"), BridgeInfo: info}
 		st.signer, st.info = req.Sender, &info
-		st.fn = func(c sdk.Context) error { _, e := ms.SetBridgeInfo(c, req); return e }
+		st.fn = func(c sdk.Context) error { r, e := ms.SetBridgeInfo(c, req); st.resp = r; return e }
 	case mFinalizeDeposit:
 		req := symFinalizeDeposit()
 		req.Data = nil
 		st.signer, st.deposit = req.Sender, req
 		st.fn = func(c sdk.Context) error {
 			r, e := ms.FinalizeTokenDeposit(c, req)
+			st.resp = r
 			if e == nil {
 				st.depRes = r.Result
 			}
@@ -105,6 +107,7 @@ func newStep(ms *MsgServer) *step {
 		st.signer, st.withdraw = req.Sender, req
 		st.fn = func(c sdk.Context) error {
 			r, e := ms.InitiateTokenWithdrawal(c, req)
+			st.resp = r
 			if e == nil {
 				st.wdSeq = r.Sequence
 			}
@@ -113,7 +116,7 @@ func newStep(ms *MsgServer) *step {
 	default:
 		req := &types.MsgUpdateOracle{Sender: verifSymStr("req.sender"), Height: verifSymU64("req.height"), Data: verifOpaqueBytes("req.data")}
 		st.signer = req.Sender
-		st.fn = func(c sdk.Context) error { _, e := ms.UpdateOracle(c, req); return e }
+		st.fn = func(c sdk.Context) error { r, e := ms.UpdateOracle(c, req); st.resp = r; return e }
 	}
 	return st
 }
